@@ -7,7 +7,7 @@
   `Generated.discipline` are REGENERATED from mongomock/thread.py and mongomock/store.py by
   tracing on every check.  Statements only; proofs are in `Proofs/C19*.lean`.
 -/
-import Proofs.C19Main
+import Proofs.C19Raise
 namespace MongoModel.Props.C19
 open MongoModel.RWLock MongoModel.Generated
 
@@ -60,9 +60,9 @@ theorem sample_ok : sampleCfg.conformant Generated.protocol = true ∧ sampleCfg
 example : ∃ cfg : Cfg, cfg.conformant Generated.protocol = true := ⟨sampleCfg, sample_ok.1⟩
 
 /-- every single store-method call compiles (with the regenerated protocol and discipline) to
-    conformant, disciplined code — complete table over the twelve methods -/
+    conformant, disciplined code — complete table over the thirteen methods -/
 def allMethods : List Method :=
-  [.contains, .getItem, .setItem, .delItem, .len, .documents, .isEmpty, .expireDocuments,
+  [.contains, .getItem, .setItem, .delItem, .discard, .len, .documents, .isEmpty, .expireDocuments,
    .removeExpired, .createIndex, .createIndexTtl, .dropIndex]
 
 theorem store_methods_conformant :
@@ -232,6 +232,88 @@ theorem thread_safe_any_n (cfg : Cfg) (hc : cfg.conformant Generated.protocol = 
 
 example : sampleCfg.conformant Generated.protocol = true ∧ sampleCfg.disciplined = true ∧
     sampleCfg.mutatesTtl = true := ⟨sample_ok.1, sample_ok.2.1, sample_ok.2.2.1⟩
+
+/-! ## (d) what raises: only what the source says; removing a document with `discard` never fails
+
+  `Collection._delete` used to remove the documents it had read with `del self._store[doc_id]`
+  (store method `__delitem__`): a second deleter — another `delete_one` / `delete_many`, a TTL
+  expiry pass — in between made it raise `KeyError(doc_id)` (finding `concurrent-delete-keyerror`,
+  repaired in a0040b0).  It now calls `discard`, whose body is `d.pop(key, None)` inside a writer
+  section. -/
+
+/-- `d.pop(key, None)` — the body of `discard` and of the expiry pass — never raises and records
+    no error, in any state, whoever removed the key before -/
+theorem pop_never_raises (cfg : Cfg) (code : Code) (sh : Shared) (th : Thread) (d : Dict) (k : Key) :
+    ∃ e, dictOp cfg code sh th (.popItem d k) = some e ∧ e.raised = none ∧ e.th.fault = th.fault :=
+  popItem_never_raises cfg code sh th d k
+
+/-- ANY number of threads, any conformant and disciplined programs: an exception raised by an
+    action of a reachable state is raised by an instruction that declares it — `d[key]` /
+    `del d[key]` on a key that is not there (`KeyError`), or the consumer of `documents` throwing
+    into the generator.  No "changed size" / "mutated during iteration" error, no failing release,
+    and no `KeyError` from a `pop` -/
+theorem raises_only_where_declared (cfg : Cfg) (hc : cfg.conformant Generated.protocol = true)
+    (hd : cfg.disciplined = true) (s : State) (hr : Reach cfg s) (t : Nat) (x : Exc)
+    (h : stepRaised cfg s t = some x) :
+    ∃ th ins, s.ths[t]? = some th ∧ (cfg.code t)[th.pc]? = some ins ∧
+      declaredRaise ins.op x = true :=
+  raises_declared hc (protocol_is_reference ▸ reference_good _) hd s hr t x h
+
+/-- ANY number of deleters (and scanners, inserters, expiry passes): when no thread reads `d[key]`
+    or does `del d[key]` (`Cfg.noKeyedAccess`: scans, membership tests, lengths, inserts,
+    `discard`s, expiry passes, index creation) — documents are removed through `discard` only —
+    no interleaving makes any action raise `KeyError` or an internal error: the only exception
+    there can be is the one a consumer throws into its own scan -/
+theorem deleters_never_fail (cfg : Cfg) (hc : cfg.conformant Generated.protocol = true)
+    (hd : cfg.disciplined = true) (hq : cfg.noKeyedAccess = true) (s : State) (hr : Reach cfg s)
+    (t : Nat) : stepRaised cfg s t = none ∨ stepRaised cfg s t = some .thrown :=
+  no_keyed_access_quiet hc (protocol_is_reference ▸ reference_good _) hd hq s hr t
+
+/-- the store-level programs of three concurrent `delete_one({'_id': 2})` … as repaired: each
+    scans the collection and then discards document 2; a TTL expiry pass that removes the same
+    document runs next to them -/
+def deleteRaceScenario : Scenario :=
+  { docs0 := [1, 2], idx0 := [0], ttl0 := [0], expired := [2],
+    progs := [[{ m := .documents }, { m := .discard, key := 2 }],
+              [{ m := .documents }, { m := .discard, key := 2 }],
+              [{ m := .expireDocuments }]] }
+
+def deleteRaceCfg : Cfg := mkCfg Generated.protocol Generated.discipline deleteRaceScenario
+
+theorem delete_race_ok : deleteRaceCfg.conformant Generated.protocol = true ∧
+    deleteRaceCfg.disciplined = true ∧ deleteRaceCfg.noKeyedAccess = true ∧
+    deleteRaceCfg.codes.length = 3 := by decide +kernel
+
+/-- so NO schedule of the three makes anybody fail, and nothing is bad or deadlocked -/
+theorem repaired_delete_race_gone (s : State) (hr : Reach deleteRaceCfg s) (t : Nat) :
+    (stepRaised deleteRaceCfg s t = none ∨ stepRaised deleteRaceCfg s t = some .thrown) ∧
+      bad [] deleteRaceCfg s = false ∧ deadlocked deleteRaceCfg s = false :=
+  ⟨deleters_never_fail _ delete_race_ok.1 delete_race_ok.2.1 delete_race_ok.2.2.1 s hr t,
+   thread_safe_any_n _ delete_race_ok.1 delete_race_ok.2.1 s hr⟩
+
+/-- what `_delete` did before: scan, then `del store[2]` -/
+def unrepairedDeleteScenario : Scenario :=
+  { docs0 := [1, 2], idx0 := [], ttl0 := [], expired := [],
+    progs := [[{ m := .documents }, { m := .delItem, key := 2 }],
+              [{ m := .documents }, { m := .delItem, key := 2 }]] }
+
+def unrepairedDeleteCfg : Cfg :=
+  mkCfg Generated.protocol Generated.discipline unrepairedDeleteScenario
+
+/-- both threads scan (23 actions each), thread 0 deletes (12 actions), thread 1 reaches its
+    `del` (5 actions) -/
+def deleteRaceSchedule : List Nat :=
+  List.replicate 23 0 ++ List.replicate 23 1 ++ List.replicate 12 0 ++ List.replicate 5 1
+
+/-- … and thread 1's `del` raises `KeyError`: the key vanished between its scan and its delete.
+    (The code is conformant and disciplined: `thread_safe` never promised that `del d[key]` finds
+    its key — that is why the repair had to be made in `Collection._delete`.) -/
+theorem unrepaired_delete_race :
+    unrepairedDeleteCfg.conformant Generated.protocol = true ∧
+    unrepairedDeleteCfg.disciplined = true ∧ unrepairedDeleteCfg.noKeyedAccess = false ∧
+    (match runSched unrepairedDeleteCfg (initState unrepairedDeleteCfg) deleteRaceSchedule with
+     | some s => stepRaised unrepairedDeleteCfg s 1 == some .keyError
+     | none => false) = true := by decide +kernel
 
 /-! ## (c) a reader sees one state -/
 
